@@ -616,6 +616,13 @@ pub fn dump_body<'tcx>(tcx: TyCtxt<'tcx>, owner: LocalDefId) -> J {
         o.push(("sig", J::Str(crate::pp!(sig.to_string()))));
         o.push(("ret", J::Str(tys(sig.output().skip_binder()))));
         o.push(("is_async", J::Bool(tcx.asyncness(did).is_async())));
+        // names of all generic parameters (parents first), in the order of the `gargs` recorded at call sites
+        let g = tcx.generics_of(did);
+        let mut names = vec![];
+        for i in 0..g.count() {
+            names.push(J::Str(g.param_at(i, tcx).name.to_string()));
+        }
+        o.push(("generics", J::Arr(names)));
         if let Some(assoc) = tcx.opt_associated_item(did) {
             let parent = tcx.parent(did);
             match tcx.def_kind(parent) {
